@@ -443,6 +443,19 @@ class DictList(list):
         """
         self.pop(self.index(x))
 
+    def clear(self) -> None:
+        """Remove all elements."""
+        list.clear(self)
+        self._dict.clear()
+
+    def __imul__(self, n: int) -> "DictList":
+        """Repeat the list *IN PLACE*: only possible without duplicating an id."""
+        if n <= 0:
+            self.clear()
+        elif n > 1 and len(self) > 0:
+            raise ValueError("repeating a DictList would duplicate its identifiers")
+        return self
+
     # these functions are slower because they rebuild the _dict every time
     def reverse(self) -> None:
         """Reverse *IN PLACE*."""
